@@ -3125,6 +3125,52 @@ FIO_determineDstName(const char* srcFileName, const char* outDirName)
     /* note : dstFileNameBuffer memory is not going to be free */
 }
 
+/* FIO_checkDstNameCollisions() :
+ * same purpose as FIO_checkFilenameCollisions(), for decompression into a flat directory :
+ * what must differ is the name FIO_determineDstName() derives, i.e. the base name without its
+ * compression suffix (x.zst and x.gz, or x.tar.zst and x.tzst, are written to the same file).
+ * @return : 1 if two sources share a destination (or on allocation error), 0 otherwise */
+static int FIO_checkDstNameCollisions(const char** srcNames, unsigned nbFiles)
+{
+    char** const keys = (char**)calloc(nbFiles ? nbFiles : 1, sizeof(char*));
+    unsigned nbKeys = 0, u;
+    int collision = 0;
+    if (keys == NULL) {
+        DISPLAYLEVEL(1, "Allocation error during filename collision checking \n");
+        return 1;
+    }
+    for (u = 0; u < nbFiles; ++u) {
+        const char* base = strrchr(srcNames[u], PATH_SEP);
+        const char* suffix;
+        const char** known;
+        size_t stemLen;
+        base = (base == NULL) ? srcNames[u] : base+1;
+        suffix = strrchr(base, '.');
+        if (suffix == NULL || suffix == base) continue;   /* no destination can be derived : refused later */
+        for (known = suffixList; *known != NULL; known++) {
+            if (!strcmp(*known, suffix)) break;
+        }
+        if (*known == NULL) continue;   /* same */
+        stemLen = (size_t)(suffix - base);
+        keys[nbKeys] = (char*)malloc(stemLen + 5);
+        if (keys[nbKeys] == NULL) { collision = 1; break; }
+        memcpy(keys[nbKeys], base, stemLen);
+        strcpy(keys[nbKeys] + stemLen, (suffix[1] == 't') ? ".tar" : "");
+        nbKeys++;
+    }
+    if (!collision && nbKeys > 1) {
+        qsort((void*)keys, nbKeys, sizeof(char*), UTIL_compareStr);
+        for (u = 1; u < nbKeys; ++u) {
+            if (strcmp(keys[u-1], keys[u]) == 0) {
+                DISPLAYLEVEL(2, "WARNING: Two files are decompressed to the same filename: %s\n", keys[u]);
+                collision = 1;
+        }   }
+    }
+    for (u = 0; u < nbKeys; ++u) free(keys[u]);
+    free(keys);
+    return collision;
+}
+
 int
 FIO_decompressMultipleFilenames(FIO_ctx_t* const fCtx,
                                 FIO_prefs_t* const prefs,
@@ -3159,7 +3205,7 @@ FIO_decompressMultipleFilenames(FIO_ctx_t* const fCtx,
     } else {
         /* same rule as compression : with --rm, sources that share an output file are refused */
         if (outDirName && prefs->removeSrcFile && fCtx->nbFilesTotal > 1
-          && FIO_checkFilenameCollisions(srcNamesTable, (unsigned)fCtx->nbFilesTotal)) {
+          && FIO_checkDstNameCollisions(srcNamesTable, (unsigned)fCtx->nbFilesTotal)) {
             DISPLAYLEVEL(1, "zstd: several sources would be written to the same file of %s : refusing to proceed with --rm \n", outDirName);
             FIO_freeDResources(ress);
             return 1;
